@@ -191,14 +191,14 @@ Fixpoint assign_name_loop (fuel : nat) (tokens : list (token F)) (vs : vars F) (
     match nth_opt tokens idx1 with
     | None => (idx1, name)
     | Some (TOperator c) => if N.eqb c OP_EQ then (S idx1, name) else assign_name_loop f tokens vs idx1 name
-    | Some t => assign_name_loop f tokens vs idx1 (name ++ to_lowercase (token_to_string vs t))
+    | Some t => assign_name_loop f tokens vs idx1 (name ++ 32%N :: to_lowercase (token_to_string vs t))
     end
   end.
 
 Definition parse_fuel (tokens : list (token F)) : nat := (12 * length tokens + 24)%nat.
 
-(* returns the result, the session variables after the parse (a new variable is registered
-   at parse time with value None) and the parser position (it is NOT restored when the
+(* returns the result, the session variables after the parse (unchanged: registration moved to
+   the interpreter) and the parser position (it is NOT restored when the
    right-hand side parses to None) *)
 Definition parse_assignment (tokens : list (token F)) (vs : vars F) : pres * vars F * toks :=
   match find_index (is_op OP_EQ) tokens with
@@ -212,9 +212,8 @@ Definition parse_assignment (tokens : list (token F)) (vs : vars F) : pres * var
       match parse_level (parse_fuel tokens) LAddSub (skipn idx tokens) with
       | (PAst ANone, i) => (PAst ANone, vs, i)
       | (PAst e, i) =>
-        let vs' := if assoc_mem name vs then vs
-                   else assoc_insert name {| v_tokens := firstn end_ tokens; v_data := ANone |} vs in
-        (PAst (AAssignment name e), vs', i)
+        (* the variable is only registered by executer_assignment, once its value is computed *)
+        (PAst (AAssignment name (firstn end_ tokens) e), vs, i)
       | (r, i) => (r, vs, i)
       end
     end
